@@ -1181,7 +1181,8 @@ impl Expression {
         scopes: &Vec<ScopeVar>,
     ) -> Result<ExpressionProcGen, TmplError> {
         let mut value = String::new();
-        let level = ExpressionLevel::from_expression(self);
+        // the level of the emitted text (`a ?? b` is emitted as a conditional)
+        let level = proc_gen_expression_level(self);
         let (pas, sub_p) =
             self.to_proc_gen_rec_and_combine_paths(w, scopes, ExpressionLevel::Cond, &mut value)?;
         Ok(ExpressionProcGen {
